@@ -308,7 +308,7 @@ fn d74() -> Result<(), String> {
 // D60 (C11): GROUP BY over REAL keys 0.0 / -0.0 (equal in the value order, printed differently): the table shown after
 // the second line fed incrementally must equal the batch table over both lines
 fn d60() -> Result<(), String> {
-    // documented deviation (open): the two tables are equal once `-0.0 ↦ 0.0` is applied to every value, and differ raw
+    // documented deviation (open): the two tables are equal once `-0.0 ↦ 0.0` is applied to the key column, and differ raw
     // (follow mode shows the key `0.0`, batch mode `-0.0`); anything else — an error, another row, another cell — is not D60
     let lines: Vec<String> = vec!["0.0;;1".to_owned(), "-0.0;1;2".to_owned()];
     let q = "SELECT r, COUNT(v), PERCENTILE(w, 0.5) FROM t GROUP BY r";
@@ -318,7 +318,8 @@ fn d60() -> Result<(), String> {
     };
     let batch = match run_engine_batch(R3, q, &lines) { RowsOutcome::Rows { rows, .. } => rows, other => return Err(format!("batch run: {:?}", other)) };
     let show = |rows: &Vec<Vec<Value>>| format!("{:?}", rows);
-    let canon = |rows: &Vec<Vec<Value>>| -> Vec<Vec<Value>> { rows.iter().map(|r| r.iter().map(crate::engine_run::canon_zero_nan).collect()).collect() };
+    // … applied to the GROUP BY key column (the first select-list item) only
+    let canon = |rows: &Vec<Vec<Value>>| -> Vec<Vec<Value>> { rows.iter().map(|r| r.iter().enumerate().map(|(i, v)| if i == 0 { crate::engine_run::canon_zero_nan(v) } else { v.clone() }).collect()).collect() };
     let msg = format!("after line 2 follow mode shows {} but a batch run over both lines gives {}", show(&follow), show(&batch));
     if show(&follow) == show(&batch) { Ok(()) }
     else if show(&canon(&follow)) == show(&canon(&batch)) { Err(known(msg)) }
